@@ -188,6 +188,12 @@ Lemma number_eq c s :
       | Some k => tok k (ds ++ a) rest'
       | None => tok T_Id (ds ++ a) rest'
       end
+    else if negb (base =? 10) && (match ds with [] => true | _ :: _ => false end) then
+      let '(a, rest') := eat_while is_identifier_continue rest in
+      match lookup keyword_table (c :: pfx ++ a) with
+      | Some k => tok k (pfx ++ a) rest'
+      | None => tok T_Id (pfx ++ a) rest'
+      end
     else if interpret_ok base sign digits then
       tok (if base =? 2 then T_BinaryIntVal else T_IntVal) (pfx ++ ds) rest
     else
@@ -213,7 +219,15 @@ Proof.
     destruct (lookup keyword_table _) as [k|] eqn:L.
     + apply good_tok_ok; [exact HS2|]. exact (lookup_forallb _ _ _ _ keyword_table_ok L).
     + apply good_tok; [exact HS2|discriminate|discriminate].
-  - assert (HS2 : s = (pfx ++ ds) ++ rest) by (rewrite <- app_assoc; congruence).
+  - destruct (negb (base =? 10) && _) eqn:EF.
+    { apply andb_true_iff in EF. destruct EF as [_ EF]. destruct ds as [|d0 ds0]; [|discriminate].
+      cbn [app] in HS. subst s1.
+      destruct (eat_while is_identifier_continue rest) as [a rest'] eqn:EA. apply eat_while_split in EA.
+      assert (HS2 : s = (pfx ++ a) ++ rest') by (rewrite <- app_assoc; congruence).
+      destruct (lookup keyword_table _) as [k|] eqn:L.
+      + apply good_tok_ok; [exact HS2|]. exact (lookup_forallb _ _ _ _ keyword_table_ok L).
+      + apply good_tok; [exact HS2|discriminate|discriminate]. }
+    assert (HS2 : s = (pfx ++ ds) ++ rest) by (rewrite <- app_assoc; congruence).
     destruct (interpret_ok _ _ _).
     + apply good_tok; [exact HS2| |]; destruct (base =? 2); discriminate.
     + apply good_err. exact HS2.
